@@ -1056,6 +1056,31 @@ func c03Run(r *mon.Run) {
 			big("-" + strings.Repeat("9", n) + "." + strings.Repeat("0", n) + "1")
 		}
 	}
+	// (5) sibling keys that collide under the common 32-bit string hashes (FNV-1a, FNV-1, Java hashCode, CRC-32,
+	// djb2): an index keyed by a hash alone would call them duplicates
+	if r.Shard == 0 {
+		for _, pair := range [][]string{{"costarring", "liquid"}, {"declinate", "macallums"}, {"altarage", "zinke"}, {"altarages", "zinkes"},
+			{"Aa", "BB"}, {"AaAa", "BBBB", "AaBB", "BBAa"}, {"plumless", "buckeroo"}, {"hetairas", "mentioner"}, {"heliotropes", "neurospora"},
+			{"depravement", "serafins"}, {"stylist", "subgenera"}, {"joyful", "synaphea"}, {"redescribed", "urites"}, {"dram", "vivency"}} {
+			var members, rev []string
+			for i, k := range pair {
+				members = append(members, fmt.Sprintf("%q:%d", k, i))
+				rev = append([]string{fmt.Sprintf("%q:%q", k, "v")}, rev...)
+			}
+			for _, t := range []string{"{" + strings.Join(members, ",") + "}", "{" + strings.Join(rev, ",") + "}", `{"o":{` + strings.Join(members, ",") + `},"p":[{` + strings.Join(rev, ",") + `}]}`} {
+				r.Eval(1)
+				fails, in := c03Judge([]byte(t))
+				if !in {
+					r.Inconclusive("collision-text-outside-the-family")
+				}
+				for _, f := range fails {
+					st.report(f.clause, "colliding keys "+strings.Join(pair, " / "), f.what, []byte(t), []byte(t))
+				}
+				r.Nontrivial("d", t)
+				r.Count("hash_collision_key_documents", 1)
+			}
+		}
+	}
 	r.Count("reduction_probes", st.probes)
 }
 
@@ -1148,7 +1173,7 @@ func init() {
 				r.Violate(f.clause, key, f.what, c)
 			}
 		},
-		Rule:               "each JSON text J (RFC 8259, no exponent numbers, decoded keys distinct per object, <= 64 KiB) is given to jschema.New(\"root\", J): Check() must succeed; Example() must succeed, be valid JSON (encoding/json.Valid) and decode to the same tree as J (kinds, decoded keys in order, decoded strings, raw number texts, literals); GetAST() must have the same shape with TokenType per kind, Children in order, Key = decoded key, Value = decoded string / raw number / literal. Workload: fixed corner documents x 5 layouts; every string of <= 3 (quick) / <= 4 (thorough) atoms out of 20 (letter, the eight two-character escapes, \\u0000, \\u00e9 and raw e-acute, an escaped surrogate pair and the raw emoji, / // # @a { :) placed as S, {\"k\":S}, {\"k\":[S]}, {S:0}, {\"k\":[{S:0}]}, {S:S}; 100k (quick) / 3M (thorough) generated documents (depth <= 8, <= 200 nodes, 76 string atoms incl. \\uXXXX forms of quote/backslash/controls, numbers incl. -0, 0.10, 0.0 and digit strings up to 75 digits) laid out without blanks, one element per line (LF/CRLF/CR, four indents) or with random runs of space/TAB/LF/CR in every gap. Failing documents are reduced (single key / scalar on its own, then atom-wise) before being reported. Plus big documents judged as written: arrays / objects of 8..1025 members, nesting 8..257 deep, strings, keys and numbers of 8..1025 units (plain, multi-byte, escaped). distinct_nontrivial = distinct texts (hashed).",
+		Rule:               "each JSON text J (RFC 8259, no exponent numbers, decoded keys distinct per object, <= 64 KiB) is given to jschema.New(\"root\", J): Check() must succeed; Example() must succeed, be valid JSON (encoding/json.Valid) and decode to the same tree as J (kinds, decoded keys in order, decoded strings, raw number texts, literals); GetAST() must have the same shape with TokenType per kind, Children in order, Key = decoded key, Value = decoded string / raw number / literal. Workload: fixed corner documents x 5 layouts; every string of <= 3 (quick) / <= 4 (thorough) atoms out of 20 (letter, the eight two-character escapes, \\u0000, \\u00e9 and raw e-acute, an escaped surrogate pair and the raw emoji, / // # @a { :) placed as S, {\"k\":S}, {\"k\":[S]}, {S:0}, {\"k\":[{S:0}]}, {S:S}; 100k (quick) / 3M (thorough) generated documents (depth <= 8, <= 200 nodes, 76 string atoms incl. \\uXXXX forms of quote/backslash/controls, numbers incl. -0, 0.10, 0.0 and digit strings up to 75 digits) laid out without blanks, one element per line (LF/CRLF/CR, four indents) or with random runs of space/TAB/LF/CR in every gap. Failing documents are reduced (single key / scalar on its own, then atom-wise) before being reported. Plus objects whose sibling keys collide under the common 32-bit string hashes, and big documents judged as written: arrays / objects of 8..1025 members, nesting 8..257 deep, strings, keys and numbers of 8..1025 units (plain, multi-byte, escaped). distinct_nontrivial = distinct texts (hashed).",
 		MinNontrivialQuick: 100000, MinNontrivialThorough: 2000000,
 		Assumptions: []string{"encoding/json (Valid, Decoder with UseNumber) is the independent RFC 8259 decoder for J and for Example()",
 			"\"same literals\" is judged on the raw number text (-0, 0.10 and long digit strings must come back unchanged)",
